@@ -54,8 +54,8 @@ def splitResult (net : Net) (p : Pipe) (s e : Node) (pipeName newPipe : String) 
   let j1 := if isBreak then newJ.getD 1 "" else j0
   let old : Pipe := if atEnd then { p with b := j0, length := p.length * f, verts := fv }
                     else { p with a := j0, length := p.length * (1 - f), verts := lv }
-  let new : Pipe := if atEnd then { p with name := newPipe, a := j1, b := e.name, length := p.length * (1 - f), cv := false, verts := lv }
-                    else { p with name := newPipe, a := s.name, b := j1, length := p.length * f, cv := false, verts := fv }
+  let new : Pipe := if atEnd then { p with name := newPipe, a := j1, b := e.name, length := p.length * (1 - f), initStatus := p.status, cv := false, verts := lv }
+                    else { p with name := newPipe, a := s.name, b := j1, length := p.length * f, initStatus := p.status, cv := false, verts := fv }
   { nodes := net.nodes ++ newJ.map (fun j => newJunction j elev xy),
     pipes := (net.pipes.map fun q => if q.name == pipeName then old else q) ++ [new],
     others := net.others }
@@ -69,8 +69,8 @@ def oldPart : Pipe := if atEnd then { p with b := newJ.headD "", length := p.len
                     else { p with a := newJ.headD "", length := p.length * (1 - f), verts := lv }
 def newPart : Pipe :=
   let j1 := if isBreak then newJ.getD 1 "" else newJ.headD ""
-  if atEnd then { p with name := newPipe, a := j1, b := e.name, length := p.length * (1 - f), cv := false, verts := lv }
-  else { p with name := newPipe, a := s.name, b := j1, length := p.length * f, cv := false, verts := fv }
+  if atEnd then { p with name := newPipe, a := j1, b := e.name, length := p.length * (1 - f), initStatus := p.status, cv := false, verts := lv }
+  else { p with name := newPipe, a := s.name, b := j1, length := p.length * f, initStatus := p.status, cv := false, verts := fv }
 
 theorem splitResult_pipes :
     (splitResult net p s e pipeName newPipe newJ atEnd f isBreak xy fv lv).pipes
@@ -90,6 +90,7 @@ theorem split_new_pipe_no_cv :
     (newPart p s e newPipe newJ atEnd f isBreak fv lv).rough = p.rough ∧
     (newPart p s e newPipe newJ atEnd f isBreak fv lv).minor = p.minor ∧
     (newPart p s e newPipe newJ atEnd f isBreak fv lv).status = p.status ∧
+    (newPart p s e newPipe newJ atEnd f isBreak fv lv).initStatus = p.status ∧
     (newPart p s e newPipe newJ atEnd f isBreak fv lv).name = newPipe := by
   cases atEnd <;> simp [newPart]
 
@@ -97,7 +98,8 @@ theorem split_new_pipe_no_cv :
 theorem split_old_pipe_keeps :
     (oldPart p newJ atEnd f fv lv).name = p.name ∧ (oldPart p newJ atEnd f fv lv).cv = p.cv ∧
     (oldPart p newJ atEnd f fv lv).diam = p.diam ∧ (oldPart p newJ atEnd f fv lv).rough = p.rough ∧
-    (oldPart p newJ atEnd f fv lv).minor = p.minor ∧ (oldPart p newJ atEnd f fv lv).status = p.status := by
+    (oldPart p newJ atEnd f fv lv).minor = p.minor ∧ (oldPart p newJ atEnd f fv lv).status = p.status ∧
+    (oldPart p newJ atEnd f fv lv).initStatus = p.initStatus := by
   cases atEnd <;> simp [oldPart]
 
 /-- **every other element is unchanged**: all original nodes (in place), all pumps/valves, every other pipe -/
@@ -227,6 +229,7 @@ structure SplitHyp (net : Net) (pipeName newPipe : String) (newJ : List String) 
   he : net.node? p.b = some e
   hf0 : 0 ≤ f
   hf1 : f ≤ 1
+  hres : ¬ (s.kind = .reservoir ∧ e.kind = .reservoir)
   hj : ∀ j ∈ newJ, j ∉ net.nodeNames
   hl : newPipe ∉ net.linkNames
 
@@ -249,7 +252,7 @@ theorem split_total (net : Net) (pipeName newPipe : String) (newJ : List String)
     simpa using h.hj j hj'
   have hl : net.linkNames.contains newPipe = false := by simpa using h.hl
   unfold splitOrBreak splitCore
-  simp only [h.hp, hfr, hj, hl, h.hs, h.he, if_false, if_true, hg, Bool.false_eq_true]
+  simp only [h.hp, hfr, hj, hl, h.hs, h.he, h.hres, if_false, if_true, hg, Bool.false_eq_true]
   cases atEnd <;> simp [splitResult]
 
 
@@ -295,7 +298,7 @@ def splitPinned := splitCore false (fun p => p.cv)
 
 def demoNet (cv : Bool) (verts : List Pt) : Net :=
   { nodes := [⟨"A", .junction, 10, (0, 0)⟩, ⟨"B", .junction, 20, (10, 0)⟩],
-    pipes := [{ name := "P", a := "A", b := "B", length := 100, diam := 1, rough := 100, minor := 0, status := 1, cv := cv, verts := verts }],
+    pipes := [{ name := "P", a := "A", b := "B", length := 100, diam := 1, rough := 100, minor := 0, initStatus := 1, status := 1, cv := cv, verts := verts }],
     others := [] }
 
 def isOk : Except Err Net → Bool
@@ -609,7 +612,8 @@ theorem skelInv_seriesMerge (orig s : Skel) (inv : SkelInv orig s) (j n0 n1 : St
             have hp0 : p0 ∈ s.links := between_mem s j n0 p0 (by rw [hb0]; exact List.mem_cons_self ..)
             have hp1 : p1 ∈ s.links := between_mem s j n1 p1 (by rw [hb1]; exact List.mem_cons_self ..)
             obtain ⟨k1, k2⟩ := links_merge_ok orig s inv thr p0 p1
-              { name := (dominant p0 p1).name, a := n0, b := n1, isPipe := true, diam := (dominant p0 p1).diam, length := p0.length + p1.length }
+              { name := (dominant p0 p1).name, a := n0, b := n1, isPipe := true, diam := (dominant p0 p1).diam, length := p0.length + p1.length,
+                minor := (dominant p0 p1).minor, status := (dominant p0 p1).status, cv := false }
               hp0 hp1 hr'.1 hr'.2 (dominant_name p0 p1)
             exact skelInv_absorb orig s inv j c nj _ hnj hg'.1 hg'.2 hcn hcj k1 k2
       · exact inv
@@ -627,7 +631,7 @@ theorem skelInv_parallelMerge (orig s : Skel) (inv : SkelInv orig s) (j n p0n p1
       · exact inv
       · have hp0 : p0 ∈ s.links := between_mem s j n p0 (List.mem_of_find?_eq_some hf0)
         have hp1 : p1 ∈ s.links := between_mem s j n p1 (List.mem_of_find?_eq_some hf1)
-        obtain ⟨k1, k2⟩ := links_merge_ok orig s inv thr p0 p1 { dominant p0 p1 with isPipe := true }
+        obtain ⟨k1, k2⟩ := links_merge_ok orig s inv thr p0 p1 { dominant p0 p1 with isPipe := true, cv := false }
           hp0 hp1 hr'.1 hr'.2 (dominant_name p0 p1)
         exact { inv with
           keepL := fun l hl hc => k1 l (inv.keepL l hl hc) (by rw [inv.pex]; exact hc)
@@ -697,7 +701,7 @@ theorem skeleton_retains (nodes : List SNode) (links : List SLink) (jx px : List
 /-- non-vacuity: J2 hangs on J1 by a small pipe and is trimmed; tank T and the pump stay; demands move to J1 -/
 def demoSkel : Skel := Skel.init
   [⟨"R", .reservoir, []⟩, ⟨"J1", .junction, [⟨1, "", ""⟩]⟩, ⟨"J2", .junction, [⟨2, "P", "A"⟩]⟩, ⟨"T", .tank, []⟩]
-  [⟨"PU", "R", "J1", false, 0, 0⟩, ⟨"P1", "J1", "J2", true, 1 / 10, 50⟩, ⟨"P2", "J1", "T", true, 1 / 10, 70⟩] [] []
+  [⟨"PU", "R", "J1", false, 0, 0, 0, 1, false⟩, ⟨"P1", "J1", "J2", true, 1 / 10, 50, 0, 1, false⟩, ⟨"P2", "J1", "T", true, 1 / 10, 70, 0, 1, true⟩] [] []
 
 example : (Skel.run (1 / 5) demoSkel [.trim "J2", .trim "J1"]).nodes.map (·.name) = ["R", "J1", "T"] := by decide +kernel
 example : mapGet (Skel.run (1 / 5) demoSkel [.trim "J2"]).map "J1" = ["J1", "J2"] := by decide +kernel
